@@ -1,14 +1,14 @@
 SPECIFICATION Spec
 CONSTANTS
   Trans = {1, 2}
-  Keys = {1, 2}
+  Keys = {1}
   MaxOps = 2
   NoDupRead = FALSE
-  LoseMinKey = TRUE
+  LoseMinKey = FALSE
   EarlyClean = FALSE
-  WithExclusive = FALSE
-  ExclLe = FALSE
+  WithExclusive = TRUE
+  ExclLe = TRUE
   WithAborts = FALSE
-INVARIANTS Serializable OutcomeTruthful RetainsOverlapping
+INVARIANTS ExclusiveRespected Serializable OutcomeTruthful RetainsOverlapping
 PROPERTIES SnapshotStable AtomicCommit
 CHECK_DEADLOCK FALSE
